@@ -1,7 +1,7 @@
 """C10 — deleting atoms removes exactly them and the terms that touch them (del atoms[idx], pop)."""
 import itertools
 
-from .. import core, gen
+from .. import accessors, core, gen
 
 RULE = ("structures: random consistent Atoms (≤6 atoms quick / ≤7 thorough, mixed term kinds, coefficient tables, extra "
         "columns); deletions: EVERY non-empty ordered subset for the small structures (a share of them also in numpy's "
@@ -15,6 +15,9 @@ def oracle_delete(a, idx, r):
     dead = set(idx)
     keep = [i for i in range(n) if i not in dead]
     if "ok" not in r:
+        if r.get("err") == "error:AccessorStale":
+            return ("after the deletion an accessor of the object (elements / symbols / len / num_*_types / label_atoms / "
+                    "to_ase) no longer agrees with its arrays: the remaining atoms did not keep their data as seen through it")
         return "deletion of valid distinct indices raised %s" % r.get("err")
     r = r["ok"]
     if r["atoms"] != [a["atoms"][i] for i in keep]:
@@ -30,10 +33,20 @@ def oracle_delete(a, idx, r):
     return None
 
 
+def _accessors_after(a):
+    """the derived accessors (elements, symbols, len, num_*_types, label_atoms, to_ase) of the object that was just
+    shortened must agree with its arrays; a mismatch surfaces as the error kind `AccessorStale` of the operation"""
+    bad = accessors.problem(a)
+    if bad:
+        raise accessors.AccessorStale(bad)
+
+
 def _delete(aj, idx):
     def f():
         a = core.atoms_from_json(aj)
+        accessors.touch(a)           # accessors read before …
         del a[list(idx)]
+        _accessors_after(a)          # … and after the deletion, on the same object
         return core.canon_atoms(a)
     return core.result_of(f)
 
@@ -41,10 +54,12 @@ def _delete(aj, idx):
 def _pop(aj, i):
     def f():
         a = core.atoms_from_json(aj)
+        accessors.touch(a)
         if i is None:
             a.pop()
         else:
             a.pop(i)
+        _accessors_after(a)
         return core.canon_atoms(a)
     return core.result_of(f)
 
@@ -133,7 +148,9 @@ def _delete_any(aj, arg):
     def f():
         a = core.atoms_from_json(aj)
         box["a"] = a
+        accessors.touch(a)
         del a[arg]
+        _accessors_after(a)
         return core.canon_atoms(a)
     r = core.result_of(f)
     after = None
